@@ -8,7 +8,7 @@ from runsum import is_root
 
 RERUN_ON_CONFIGS = ("dfm", "std")
 LEVEL = "other"
-RULE_TEXT = ("C02-R: on every loop-body path of Interface::run the path variable handed to parse is the root at entry, "
+RULE_TEXT = ("C02-ST: no body of the library names a static that can change at run time (rule C12-P). C02-R: on every loop-body path of Interface::run the path variable handed to parse is the root at entry, "
              "root again after every path on which a terminator was consumed (terminated unit, empty message, skipped "
              "faulty message), the unit's parent header after an unterminated compound unit, unchanged after a common "
              "command; C02-P: on every Ok path of compound_command_program_header the returned header is the parent of "
@@ -54,6 +54,9 @@ def run(ck):
     # offered again), on an error it resumes behind the message - the exits of run per path (rule C06-R)
     import c06
     c06.rule_R(ck, lib, "C02-C06R")
+    # "the handler a message selects never depends on any message sent before it": no state outside the locals of run
+    import c12
+    c12.rule_STATE(ck, lib, "C02-ST")
 
 
 # ---------------------------------------------------------------- C02-R
